@@ -14,7 +14,6 @@ mod suite_idmap;
 mod ser_gen;
 mod ser_oracle;
 mod ser_ws;
-mod suite_entity;
 mod suite_ser;
 mod suite_tree;
 mod tree;
